@@ -3,9 +3,11 @@
     parent's affine (spatial dims; the cumulative [+=] of the code), everything else of the affine and the
     header slice dim are the parent's; and (the F5 repair) the piece's extension records the piece's image shape.
     Model: Wrapper/Model.v; vocabulary: Wrapper/Spec.v. *)
-From Coq Require Import List Bool Arith ZArith QArith Lia.
-From DV Require Import Common.Res Common.Jv Ext.Types Ext.Model Orient.Model Wrapper.Model Wrapper.Spec
-     Wrapper.ProofsSplit.
+From Coq Require Import List Bool Arith ZArith NArith QArith Lia.
+From DV Require Import Common.Res Common.Str Common.Jv Ext.Types Ext.Model Ext.Spec Ext.LookupSpec Ext.ValidFacts Ext.ProofsSubset
+     Ext.Split Ext.ProofsRoundtripEx
+     Orient.Model Wrapper.Model Wrapper.Spec
+     Wrapper.ProofsSplit Wrapper.ProofsLookupW Wrapper.ProofsSplitLink.
 Import ListNotations.
 Local Open Scope nat_scope.
 
@@ -46,17 +48,55 @@ Theorem C04img_ext_shape :
       aff (hdr_of (snd p)) = aff (hdr_of e).
 Proof. exact @split_w_agree. Qed.
 
+(** WRAPPER level (image half composed with C04_subset_den and C08_value): a lookup ([get_meta], default None) on
+    piece [i] at any voxel of the piece = the parent's lookup at the voxel with the split axis fixed to [i]. *)
+Theorem C04w_lookup :
+  forall (V : Type) (veqb : V -> V -> bool) (vnone : V), (forall a b, reflect (a = b) (veqb a b)) ->
+  forall (im : img) (e : ext V) (odim : option nat) (ws : list (wrapper V)) (dw : wrapper V),
+    split_w veqb vnone (im, e) odim = Ok ws ->
+    wf_img im -> consistent (im, e) -> valid e -> nondegenerate e -> no_trailing1 (shape (hdr_of e)) = true ->
+    exists dim, resolve_split_dim im odim = Ok dim /\ length ws = nth dim (ishape im) 0 /\
+      forall i, i < length ws ->
+        forall k ix, LookupSpec.in_bounds ix (ishape (fst (nth i ws dw))) ->
+          LookupSpec.in_bounds (piece_src_z (length (ishape im)) dim i ix) (ishape im) /\
+          get_meta (ext_img_of (fst (nth i ws dw))) (snd (nth i ws dw)) k (Some ix) vnone =
+          get_meta (ext_img_of im) e k (Some (piece_src_z (length (ishape im)) dim i ix)) vnone.
+Proof. exact @split_w_lookup. Qed.
+
+(** LINK between the two models of [NiftiWrapper.split] (Ext/Split.v [split], used by C04_split_* in Props/C04.v,
+    and Wrapper/Model.v [split_w]): same exception, or piece by piece the same shape, slice dim, voxel list and
+    extension, affines equal entry by entry as rationals -- whenever the parent's extension passes [check_valid].
+    Where they differ: [Ext.Split.split] does not model the [check_valid] that [NiftiWrapper(split_nii)] runs on the
+    parent's extension for every piece ([C04img_split_models_differ]). *)
+Theorem C04img_split_models_agree :
+  forall (V : Type) (veqb : V -> V -> bool) (vnone : V) (w : wimg) (e : ext V) (odim : option nat),
+    wf_img (of_wimg w) -> check_valid_e e = true ->
+    res_rel (Forall2 piece_same) (Split.split veqb vnone w e odim) (split_w veqb vnone (of_wimg w, e) odim).
+Proof. exact @split_models_agree. Qed.
+
+Theorem C04img_split_models_differ :
+  check_valid_e bad_ext = false /\
+  split_w jv_eqb JNull (of_wimg bad_wimg, bad_ext) (Some 0) = Err EMissingExt /\
+  exists ps, Split.split jv_eqb JNull bad_wimg bad_ext (Some 0) = Ok ps /\ length ps = 1.
+Proof. exact split_models_differ. Qed.
+
 (* ------------------------------------------------------------------------------------------ non-vacuity *)
 
 Definition exB : mat := [[3 # 2; -4 # 1; 0; 10]; [2 # 1; 3 # 1; 0; -8 # 1]; [0; 0; 5 # 2; 3]; [0; 0; 0; 1]]%Q.
+Definition exBi : img := mk_img [2; 1; 3] [1; 2; 3; 4; 5; 6]%Z exB (Some 2).
 
-(** a (2,1,3) image split along the slice axis 2 with the oblique non-symmetric affine [exB]:
-    piece 2 starts two columns (0,0,2.5) further *)
+(** every hypothesis of [C04img_pieces]: a well-formed (2,1,3) image split along the slice axis 2 with the oblique
+    non-symmetric affine [exB]; piece 2 starts two columns (0,0,2.5) further *)
 Example C04img_pieces_nonvacuous :
-  exists ps, split_img_at (mk_img [2; 1; 3] [1; 2; 3; 4; 5; 6]%Z exB (Some 2)) 2 = Ok ps /\
+  wf_img exBi /\
+  exists ps, split_img_at exBi 2 = Ok ps /\ length ps = 3 /\
              map idata ps = [[1; 4]; [2; 5]; [3; 6]]%Z /\
-             map (fun p => map Qred (col3 (iaff p) 3)) ps = [[10; -8 # 1; 3]; [10; -8 # 1; 11 # 2]; [10; -8 # 1; 8]]%Q.
-Proof. eexists. split; [vm_compute; reflexivity|]. split; vm_compute; reflexivity. Qed.
+             map (fun p => map Qred (col3 (iaff p) 3)) ps = [[10; -8 # 1; 3]; [10; -8 # 1; 11 # 2]; [10; -8 # 1; 8]]%Q /\
+             aget (iarr (nth 2 ps exBi)) [1; 0; 0] = aget (iarr exBi) (piece_src 3 2 2 [1; 0; 0]).
+Proof.
+  split; [split; reflexivity|]. eexists. split; [vm_compute; reflexivity|]. split; [reflexivity|].
+  split; [vm_compute; reflexivity|]. split; vm_compute; reflexivity.
+Qed.
 
 Example C04img_default_dim_nonvacuous :
   resolve_split_dim (mk_img [2; 1; 3] [1; 2; 3; 4; 5; 6]%Z exB (Some 0)) None = Ok 0 /\
@@ -64,11 +104,44 @@ Example C04img_default_dim_nonvacuous :
   resolve_split_dim (mk_img [2; 1; 1; 3] [1; 2; 3; 4; 5; 6]%Z exB None) None = Ok 3.
 Proof. repeat split. Qed.
 
-(** (1,1,2,1,2) along dim 4 (the F5 shape): pieces are (1,1,2), image and extension alike *)
+(** every hypothesis of [C04img_ext_shape]: (1,1,2,1,2) along dim 4 (the F5 shape): pieces are (1,1,2), image and
+    extension alike *)
 Example C04img_ext_shape_nonvacuous :
-  exists ws, split_w jv_eqb JNull
-               (mk_img [1; 1; 2; 1; 2] [1; 2; 3; 4]%Z exB (Some 2),
-                mk_ext (mk_hdr [1; 1; 2; 1; 2] (Some 2) exB false true) []) (Some 4) = Ok ws /\
+  let im := mk_img [1; 1; 2; 1; 2] [1; 2; 3; 4]%Z exB (Some 2) in
+  let e := mk_ext (mk_hdr [1; 1; 2; 1; 2] (Some 2) exB false true) (@nil (key * (cls * list jv))) in
+  wf_img im /\ shape (hdr_of e) = ishape im /\ sdim (hdr_of e) = islice im /\
+  exists ws, split_w jv_eqb JNull (im, e) (Some 4) = Ok ws /\ length ws = 2 /\
              map (fun w => (ishape (fst w), shape (hdr_of (snd w)), idata (fst w))) ws =
              [([1; 1; 2], [1; 1; 2], [1; 3]%Z); ([1; 1; 2], [1; 1; 2], [2; 4]%Z)].
-Proof. eexists. split; vm_compute; reflexivity. Qed.
+Proof. cbv zeta. split; [split; reflexivity|]. split; [reflexivity|]. split; [reflexivity|]. eexists. split; [vm_compute; reflexivity|]. split; reflexivity. Qed.
+
+(** [C04w_lookup]: the 5-D extension [c05_ex] (one key per class, slice axis 1) on its own (2,2,2,3,2) image, split
+    along time; every hypothesis, and the lookups of piece 2 at voxel (1,0,1,0,1) = the parent's at (1,0,1,2,1) *)
+Definition exL : img := mk_img [2; 2; 2; 3; 2] (map Z.of_nat (seq 0 48)) c05_aff (Some 1).
+
+Example C04w_lookup_nonvacuous :
+  wf_img exL /\ consistent (exL, c05_ex) /\ valid c05_ex /\ nondegenerate c05_ex /\
+  no_trailing1 (shape (hdr_of c05_ex)) = true /\
+  exists ws, split_w jv_eqb JNull (exL, c05_ex) (Some 3) = Ok ws /\ length ws = 3 /\
+    LookupSpec.in_bounds [1; 0; 1; 0; 1]%Z (ishape (fst (nth 2 ws (exL, c05_ex)))) /\
+    piece_src_z 5 3 2 [1; 0; 1; 0; 1]%Z = [1; 0; 1; 2; 1]%Z /\
+    map (fun k => get_meta (ext_img_of (fst (nth 2 ws (exL, c05_ex)))) (snd (nth 2 ws (exL, c05_ex))) k (Some [1; 0; 1; 0; 1]%Z) JNull)
+        [[116]%N; [118]%N; [115]%N; [119]%N; [103]%N; [99]%N] =
+    map (fun k => get_meta (ext_img_of exL) c05_ex k (Some [1; 0; 1; 2; 1]%Z) JNull)
+        [[116]%N; [118]%N; [115]%N; [119]%N; [103]%N; [99]%N] /\
+    get_meta (ext_img_of exL) c05_ex [116]%N (Some [1; 0; 1; 2; 1]%Z) JNull = Ok (JInt 15).
+Proof.
+  destruct c05_ex_dom as (Hv & Hnd & Hnt & _).
+  split; [split; reflexivity|]. split; [repeat split|]. split; [exact Hv|]. split; [exact Hnd|]. split; [exact Hnt|].
+  eexists. split; [vm_compute; reflexivity|]. split; [reflexivity|].
+  split; [split; [reflexivity|]; intros j Hj; cbn in Hj; destruct j as [|[|[|[|[|j]]]]]; cbn; lia|].
+  split; [reflexivity|]. split; vm_compute; reflexivity.
+Qed.
+
+(** [C04img_split_models_agree]: hypotheses for the same image and extension, and both models' pieces *)
+Example C04img_split_models_agree_nonvacuous :
+  let w := mk_wimg [2; 2; 2; 3; 2] (Some 1) c05_aff (map Z.of_nat (seq 0 48)) in
+  wf_img (of_wimg w) /\ check_valid_e c05_ex = true /\
+  exists l1 l2, Split.split jv_eqb JNull w c05_ex (Some 1) = Ok l1 /\ split_w jv_eqb JNull (of_wimg w, c05_ex) (Some 1) = Ok l2 /\
+                map (fun p => wi_data (fst p)) l1 = map (fun p => idata (fst p)) l2 /\ length l1 = 2.
+Proof. cbv zeta. split; [split; reflexivity|]. split; [vm_compute; reflexivity|]. eexists. eexists. split; [vm_compute; reflexivity|]. split; [vm_compute; reflexivity|]. split; vm_compute; reflexivity. Qed.
